@@ -71,17 +71,18 @@ def run(ctx):
         # deeper histories by random walks over the full menu (exhaustive depth 4 with the full menu is 6 million states,
         # depth 5 ~10^8: not worth the wall time next to the walks)
         mc3 = ctx.cfg('MC_Record', name='MC_Record_walks', constants={'Depth': 9, 'WithSub': 'TRUE', 'MaxNF': 8})
-        ctx.tlc('MC_Record', mc3, simulate=60000, depth=10, workers=4, timeout=1500)
+        ctx.tlc('MC_Record', mc3, simulate=20000, depth=10, workers=4, timeout=1500)
     # 2. spec -> code: exported histories replayed on the real interpreter
     if q:
         gen = ctx.cfg('Gen_Record', constants={'Depth': 3, 'Rich': 'FALSE'})
         ctx.tlc('Gen_Record', gen, capture='cases.ndjson', timeout=900)
         ctx.cov['exhaustive'] = True
     else:
-        gen = ctx.cfg('Gen_Record', constants={'Depth': 3, 'Rich': 'TRUE'})
+        # (the rich menu has ~400 operation instances: exhaustive depth 3 would be 13 million histories; it is sampled by the walks below)
+        gen = ctx.cfg('Gen_Record', constants={'Depth': 3, 'Rich': 'FALSE'})
         ctx.tlc('Gen_Record', gen, capture='cases.ndjson', timeout=1500, heap='8g')
         sim = ctx.cfg('Gen_Record', name='Gen_Record_sim', constants={'Depth': 8, 'Rich': 'TRUE', 'MaxNF': 8})
-        ctx.tlc('Gen_Record', sim, capture='cases.ndjson', simulate=40000, depth=9, workers=1, timeout=900)
+        ctx.tlc('Gen_Record', sim, capture='cases.ndjson', simulate=60000, depth=9, workers=1, timeout=1500)
         ctx.cov['exhaustive'] = True
     ctx.replay('cases.ndjson', label='gen-record', min_cases=1000, corrupt=corrupt)
     # 3. code -> spec: recorded traces validated by TLC
